@@ -424,6 +424,30 @@ def r05_5(ctx, fx):
         ctx.ob("R05.5", "on_dial_failure/result-state-has-no-dial-record", all(re.match(r"Disconnected\.None$|Disconnected$|Connected", x) for x in shapes) and bool(shapes), site=fn.site(fn.entry), cfg=fx.cfg, detail=str(sorted(shapes)))
 
 
+def r05_11(ctx, fx):
+    """"never silence": every report the manager sends is actually sent.  `Sender::send(..)` only builds a future; the event goes out
+    when that future is awaited.  In the bodies of the transport manager every future built by a channel send is used (awaited,
+    stored or handed on) - a `let _ = tx.send(event);` that lost its `.await` drops the DialFailure / ConnectionEstablished /
+    ConnectionClosed for exactly the protocol whose queue was full."""
+    from common import dropped_futures, FUTURE_CTORS
+    n = 0
+    bad = []
+    for key in sorted(fx.find(r"^transport::manager::(TransportManager|handle::TransportManagerHandle|handle::TransportHandle)::\w+::\{closure#0\}(::\{closure#\d+\})*$")):
+        fn = fx.fn(key)
+        if not fn.is_coroutine:
+            continue
+        cs = fn.calls(FUTURE_CTORS)
+        if not cs:
+            continue
+        n += len(cs)
+        ctx.bodies.add((fx.cfg, key))
+        for c in dropped_futures(fn):
+            bad.append((short(key), fn.site(c.node)))
+    ctx.anchor("R05.11", "channel send futures built in the manager's async bodies", n, 2, cfg=fx.cfg)
+    ctx.ob("R05.11", "manager/every-send-future-is-awaited", not bad, cfg=fx.cfg, site=bad[0][1] if bad else "",
+           detail="send futures that are created and dropped without being polled: %s" % bad)
+
+
 def run(ctx):
     ctx.assume("R05.3: a peer with a tracked dial has an entry in TransportManager.peers (created by dial/dial_address)")
     for cfg in ctx.configs():
@@ -438,4 +462,5 @@ def run(ctx):
             r05_6(ctx, fx)
             r05_9(ctx, fx)
             r05_10(ctx, fx)
+            r05_11(ctx, fx)
             r05_5(ctx, fx)
